@@ -1,0 +1,226 @@
+//! Verification hooks, compiled only with the `verif-hooks` feature.
+//!
+//! Nothing in here changes what the crate does unless a harness installs something on the
+//! current thread: a transport factory (the TCP dial of plain `http` connections is answered by
+//! a scripted transport), a schedule controller (the library's helper threads announce where they
+//! are and can be held there), or a resolver table (a host name resolves to a given address list).
+#![allow(missing_docs, missing_debug_implementations)]
+
+use std::cell::RefCell;
+use std::fmt;
+use std::io::{self, Read, Write};
+use std::net::SocketAddr;
+use std::sync::Arc;
+use std::time::{Duration, Instant};
+
+use url::Host;
+
+use crate::request::BaseSettings;
+use crate::streams::{BaseStream, ConnectInfo};
+
+//
+// H1: transport injection
+//
+
+/// A connection as the harness scripts it.
+pub trait Transport: Read + Write + fmt::Debug + Send {}
+
+impl<T: Read + Write + fmt::Debug + Send> Transport for T {}
+
+/// What the client asked to be connected to.
+#[derive(Debug, Clone)]
+pub struct Dial {
+    pub host: String,
+    pub port: u16,
+    pub url: String,
+    pub proxy: Option<String>,
+    pub deadline: Option<Instant>,
+    pub connect_timeout: Duration,
+    pub read_timeout: Duration,
+}
+
+pub type Factory = Box<dyn FnMut(&Dial) -> io::Result<Box<dyn Transport>>>;
+
+thread_local! {
+    static FACTORY: RefCell<Option<Factory>> = const { RefCell::new(None) };
+    static CONTROLLER: RefCell<Option<Arc<dyn Controller>>> = const { RefCell::new(None) };
+    static RESOLVER: RefCell<Vec<(String, Vec<SocketAddr>)>> = const { RefCell::new(Vec::new()) };
+}
+
+/// Installs (or removes) the transport factory of the current thread, returns the previous one.
+pub fn set_factory(factory: Option<Factory>) -> Option<Factory> {
+    FACTORY.with(|f| std::mem::replace(&mut *f.borrow_mut(), factory))
+}
+
+pub fn factory_installed() -> bool {
+    FACTORY.with(|f| f.borrow().is_some())
+}
+
+pub(crate) fn dial(host: &Host<&str>, port: u16, info: &ConnectInfo) -> crate::Result<BaseStream> {
+    let dial = Dial {
+        host: host.to_string(),
+        port,
+        url: info.url.to_string(),
+        proxy: info.proxy.map(|p| p.to_string()),
+        deadline: info.deadline,
+        connect_timeout: info.base_settings.connect_timeout,
+        read_timeout: info.base_settings.read_timeout,
+    };
+    // The factory is taken out while it runs so that it may itself use the hooks.
+    let mut factory = set_factory(None).expect("no transport factory installed");
+    let res = factory(&dial);
+    set_factory(Some(factory));
+    Ok(BaseStream::Scripted(res?))
+}
+
+//
+// H2: schedule points
+//
+
+/// Receives the announcements of every thread it is installed on.
+pub trait Controller: Send + Sync {
+    /// A thread created by the library starts running, `label` says which kind.
+    fn thread_start(&self, label: &'static str);
+    /// The thread is at the named point; the call returns when it may go on.
+    fn point(&self, label: &'static str, detail: i64);
+    /// The thread's closure is about to return.
+    fn thread_exit(&self, label: &'static str);
+}
+
+/// Installs (or removes) the schedule controller of the current thread.
+pub fn set_controller(controller: Option<Arc<dyn Controller>>) -> Option<Arc<dyn Controller>> {
+    CONTROLLER.with(|c| std::mem::replace(&mut *c.borrow_mut(), controller))
+}
+
+#[inline]
+pub fn sched_point(label: &'static str, detail: i64) {
+    let controller = CONTROLLER.with(|c| c.borrow().clone());
+    if let Some(controller) = controller {
+        controller.point(label, detail);
+    }
+}
+
+/// The controller of the spawning thread, to be handed to the thread it spawns.
+pub struct Inherited(Option<Arc<dyn Controller>>);
+
+pub fn inherit() -> Inherited {
+    Inherited(CONTROLLER.with(|c| c.borrow().clone()))
+}
+
+pub struct ThreadGuard(Option<Arc<dyn Controller>>, &'static str);
+
+impl Inherited {
+    /// First statement of a spawned closure.
+    pub fn enter(self, label: &'static str) -> ThreadGuard {
+        if let Some(controller) = &self.0 {
+            set_controller(Some(controller.clone()));
+            controller.thread_start(label);
+        }
+        ThreadGuard(self.0, label)
+    }
+}
+
+impl Drop for ThreadGuard {
+    fn drop(&mut self) {
+        if let Some(controller) = self.0.take() {
+            controller.thread_exit(self.1);
+            set_controller(None);
+        }
+    }
+}
+
+pub fn addr_detail(addr: &SocketAddr) -> i64 {
+    i64::from(addr.port()) | if addr.is_ipv6() { 1 << 16 } else { 0 }
+}
+
+//
+// H3: resolver table
+//
+
+/// Makes `domain` resolve to `addrs` (with the port of the request filled in when an entry's
+/// port is 0) for connections made from the current thread; `None` removes the entry.
+pub fn set_resolution(domain: &str, addrs: Option<Vec<SocketAddr>>) {
+    RESOLVER.with(|r| {
+        let mut r = r.borrow_mut();
+        r.retain(|(d, _)| d != domain);
+        if let Some(addrs) = addrs {
+            r.push((domain.to_owned(), addrs));
+        }
+    })
+}
+
+pub fn has_resolution(domain: &str) -> bool {
+    RESOLVER.with(|r| r.borrow().iter().any(|(d, _)| d == domain))
+}
+
+pub(crate) fn resolve(domain: &str, port: u16) -> Vec<SocketAddr> {
+    RESOLVER.with(|r| {
+        let r = r.borrow();
+        let (_, addrs) = r.iter().find(|(d, _)| d == domain).expect("no resolution installed");
+        addrs
+            .iter()
+            .map(|a| {
+                let mut a = *a;
+                if a.port() == 0 {
+                    a.set_port(port);
+                }
+                a
+            })
+            .collect()
+    })
+}
+
+//
+// H4: settings snapshot
+//
+
+/// The effective settings of a session, request builder or prepared request.
+#[derive(Debug, Clone, PartialEq, Eq)]
+pub struct Snapshot {
+    /// Identity and reference count of the shared settings allocation.
+    pub ptr: usize,
+    pub strong: usize,
+    pub headers: Vec<(String, Vec<u8>)>,
+    pub roots: usize,
+    pub max_headers: usize,
+    pub max_redirections: u32,
+    pub follow_redirects: bool,
+    pub connect_timeout: Duration,
+    pub read_timeout: Duration,
+    pub timeout: Option<Duration>,
+    pub proxy_settings: String,
+    pub accept_invalid_certs: bool,
+    pub accept_invalid_hostnames: bool,
+    pub default_charset: Option<&'static str>,
+    pub allow_compression: Option<bool>,
+}
+
+pub(crate) fn snapshot(settings: &Arc<BaseSettings>) -> Snapshot {
+    Snapshot {
+        ptr: Arc::as_ptr(settings) as usize,
+        strong: Arc::strong_count(settings),
+        headers: settings
+            .headers
+            .iter()
+            .map(|(k, v)| (k.as_str().to_owned(), v.as_bytes().to_vec()))
+            .collect(),
+        roots: settings.root_certificates.0.len(),
+        max_headers: settings.max_headers,
+        max_redirections: settings.max_redirections,
+        follow_redirects: settings.follow_redirects,
+        connect_timeout: settings.connect_timeout,
+        read_timeout: settings.read_timeout,
+        timeout: settings.timeout,
+        proxy_settings: format!("{:?}", settings.proxy_settings),
+        accept_invalid_certs: settings.accept_invalid_certs,
+        accept_invalid_hostnames: settings.accept_invalid_hostnames,
+        #[cfg(feature = "charsets")]
+        default_charset: settings.default_charset.map(|c| c.name()),
+        #[cfg(not(feature = "charsets"))]
+        default_charset: None,
+        #[cfg(feature = "flate2")]
+        allow_compression: Some(settings.allow_compression),
+        #[cfg(not(feature = "flate2"))]
+        allow_compression: None,
+    }
+}
